@@ -40,7 +40,9 @@ def _attribute_name_for_errors(attr):
 # Attribute type checkers
 def _is_constant_boolean(attr, module_source_file):
     """Checks if the given attr is a constant boolean."""
-    if not attr.value.expression.type.boolean.has_field("value"):
+    if not attr.value.has_field("expression") or not (
+        attr.value.expression.type.boolean.has_field("value")
+    ):
         return [
             [
                 error.error(
@@ -57,7 +59,10 @@ def _is_constant_boolean(attr, module_source_file):
 
 def _is_boolean(attr, module_source_file):
     """Checks if the given attr is a boolean."""
-    if attr.value.expression.type.which_type != "boolean":
+    if (
+        not attr.value.has_field("expression")
+        or attr.value.expression.type.which_type != "boolean"
+    ):
         return [
             [
                 error.error(
